@@ -5,6 +5,7 @@ import Ptk.Model.C20Chain
 import Ptk.Model.C20Lock
 import Ptk.Model.C20Nest
 import Ptk.Model.C20Patch
+import Ptk.Model.C20Alt
 open Ptk Ptk.Py Ptk.Proto Ptk.C20
 
 /-! Line-protocol driver for the C20 models.
@@ -70,6 +71,38 @@ structure DSt where
   l : C20Lock.St := {}
   n : C20Nest.St := {}
   pp : C20Patch.St := {}
+  a : C20Alt.St := {}
+
+/-! alternate screen: ainit <full_screen> | astart | astop | ainval | aresize | asec <str>
+    reply: `<events: D E X A+ A- O<alt>:<text>> | app=.. alt=..` -/
+namespace AltDrv
+open C20Alt
+
+def encEv : C20Alt.Ev → String
+  | .draw => "D"
+  | .erase => "E"
+  | .doneDraw => "X"
+  | .enterAlt => "A+"
+  | .quitAlt => "A-"
+  | .out o t => s!"O{encBool o}:{encStr t}"
+
+def reply (old new : C20Alt.St) : String :=
+  let evs := new.log.drop old.log.length
+  " ".intercalate (evs.map encEv) ++ s!" | app={encBool new.appOn} alt={encBool new.alt}"
+
+def stepLine (s : C20Alt.St) : List String → Option (C20Alt.St × String)
+  | ["ainit", f] => do
+    let n : C20Alt.St := { fullScreen := (← decBool f) }
+    pure (n, reply n n)
+  | ["astart"] => let s' := C20Alt.step s .start; some (s', reply s s')
+  | ["astop"] => let s' := C20Alt.step s .stop; some (s', reply s s')
+  | ["ainval"] => let s' := C20Alt.step s .inval; some (s', reply s s')
+  | ["aresize"] => let s' := C20Alt.step s .resize; some (s', reply s s')
+  | ["asec", d] => do
+    let s' := C20Alt.step s (.section (← decStr d))
+    pure (s', reply s s')
+  | _ => none
+end AltDrv
 
 /-! nested applications: ninit | nstart | nstop | nenter | nleave | nw <str>
     reply: `<events> | cell=<k|N> stack=<outermost first: id, 's' when its section is open>` -/
@@ -238,6 +271,10 @@ def stepLine (d : DSt) (toks : List String) : DSt × String :=
   | "linit" :: _ | "lcall" :: _ | "lbody" :: _ | "lrel" :: _ | "lfl" :: _ =>
     match LockDrv.stepLine d.l toks with
     | some (l', r) => ({ d with l := l' }, r)
+    | none => (d, "bad-op")
+  | "ainit" :: _ | "astart" :: _ | "astop" :: _ | "ainval" :: _ | "aresize" :: _ | "asec" :: _ =>
+    match AltDrv.stepLine d.a toks with
+    | some (a', r) => ({ d with a := a' }, r)
     | none => (d, "bad-op")
   | "ninit" :: _ | "nstart" :: _ | "nstop" :: _ | "nenter" :: _ | "nleave" :: _ | "nw" :: _ =>
     match NestDrv.stepLine d.n toks with
